@@ -1163,7 +1163,7 @@ func TestVerif_C03(t *testing.T) {
 
 	kinds := []int{vC03KindUTXO, vC03KindUTXO, vC03KindDeposit, vC03KindMint}
 	t0 := time.Now()
-	nseq := r.N(90, 1500)
+	nseq := r.N(40, 400)
 	for i := 0; i < nseq && r.Violations() == 0; i++ {
 		c := e.newCase(kinds[i%len(kinds)])
 		e.runSequential(c, 60+rng.Intn(60))
@@ -1171,7 +1171,7 @@ func TestVerif_C03(t *testing.T) {
 	}
 	r.Note("wall_s_sequential_phase", time.Since(t0).Seconds())
 	t1 := time.Now()
-	nconc := r.N(300, 8000)
+	nconc := r.N(150, 2000)
 	for i := 0; i < nconc && r.Violations() < 3; i++ {
 		c := e.newCase(kinds[i%len(kinds)])
 		e.runConcurrent(c, i)
